@@ -380,6 +380,20 @@ CHECKS['C05'] = {
     ],
 }
 
+CHECKS['C07'] = {
+    'level': 'exploration',
+    'technique': 'stateful fuzzing of the real server run in-process and single-stepped: generated histories of arbitrary structurally valid Messages from hostile clients (incl. a non-reading phase), with a witness-ping liveness oracle under a CPU-time watchdog, ASan/UBSan, and a no-session-left-behind check',
+    'level_text': ('Generated-history search: up to 60 Messages per history from two hostile clients over every command code (biased to the PR_COMMAND range), reserved field names with right and wrong types, paths over the full metacharacter alphabet incl. empty clauses, "..", trailing backslashes, comma lists, negation, ranges, generated and malformed filter archives, BATCH nesting to depth 5, data-tree commands, toggling "stops reading" so replies queue up before JETTISON commands. '
+                   'Oracle: after every burst a witness client\'s PING is answered; no sanitizer report; the CPU-time watchdog (process CPU clock) never fires; the server still single-steps and is empty after all clients left. Held = on every generated history.'),
+    'level_note': RH_NOTE + ' While known finding F19 stands (raw POSIX regexes reach regcomp unvetted; stacked repetition operators are exponential), backtick-prefixed raw-regex clauses and regex-operator string filters are not generated (counted).',
+    'rule': ('Byte-decoded histories. Non-trivial: a JETTISONRESULTS arrived while replies were queued for a non-reading client, or a handler was reached with a wrong-typed reserved field, or >= 2 commands were sent while the sender was not reading. Distinct: hash of the decoded history bytes.'),
+    'assumptions': [],
+    'targets': [
+        {'name': 'c07_hostile', 'src': ['harness/C07_hostile.cpp'], 'quick_n': 200000, 'thorough_n': 2000000, 'maxlen': 600, 'min_nontrivial': 5000, 'budget': 10, 'timeout_is_violation': True,
+         'class_floors': {'case_jettison_with_replies_queued': 20000, 'case_wrong_typed_reserved_field': 10000}},
+    ],
+}
+
 
 def setup():
     t0 = time.time()
